@@ -210,6 +210,11 @@ type Check[C any] struct {
 // returns a non-empty failure message unless the violation is a listed known
 // finding.
 func handle[C any](col *stats.Collector, prop, test string, c C, res Result) string {
+	if n := cliTimeouts.Swap(0); n > 0 && res.Msg != "" && !strings.HasPrefix(res.Sig, "harness:") &&
+		!strings.Contains(res.Sig, ":hang") && !strings.Contains(res.Sig, "serves-truncated") {
+		// a CLI run hit the harness's time limit while this case was evaluated: whatever was concluded from it is not a verdict
+		res = Result{Class: res.Class, NonTrivial: res.NonTrivial, Sig: "harness:cli-timeout", Msg: fmt.Sprintf("%d CLI run(s) hit the harness time limit (machine overloaded?); would have reported %s: %s", n, res.Sig, res.Msg)}
+	}
 	col.Case(res.Class, res.NonTrivial, c)
 	for _, tg := range res.Tags {
 		col.Oracle("tag:" + tg)
